@@ -208,7 +208,7 @@ def cli_run(args):
     else:
         cwd = workdir
         argv = ["--outdir", "out", "--logdir", "out", "lib.yaml"]
-    p = subprocess.run([sys.executable, "-m", "shroud.main"] + list(extra) + argv, cwd=cwd, env=env, capture_output=True, text=True)
+    p = subprocess.run([sys.executable, "-m", "shroud.main"] + list(extra) + argv, cwd=cwd, env=env, capture_output=True, text=True, errors="replace")
     if p.returncode != 0:
         shutil.rmtree(workdir, ignore_errors=True)
         return ("fail", p.stderr[-400:])
